@@ -63,6 +63,8 @@ func checkC18(r *Run) {
 	c18ChildTable(r)
 	c18Cascade(r)
 	c18WalkChain(r)
+	c18RemoveReleases(r)
+	c18DataOwnStorage(r)
 	// explicit panics
 	var roots []*ssa.Function
 	for _, fn := range p.FuncsOfPkg("ramfs") {
@@ -638,4 +640,92 @@ func c18WalkChain(r *Run) {
 	}
 	scan(fn, fa, ans, fa.Lin(ansMake.Len), 0)
 	r.Floor("walk-chain", n, 1, "transfers from the walk result into the new handle's chain")
+}
+
+// c18RemoveReleases: FileHandle.Remove gives up the handle's references on every exit — the session forgets the fid
+// after a remove whatever its outcome and never clunks it — so the release (Clunk) must be on the way to every return.
+func c18RemoveReleases(r *Run) {
+	fn := r.P.Fn("ramfs:(FileHandle).Remove")
+	if fn == nil {
+		r.Undecided("refcount", "(FileHandle).Remove", token.NoPos, "anchor not found")
+		return
+	}
+	r.SawFn(fnName(fn))
+	var rel []ssa.Instruction
+	eachInstr(fn, func(in ssa.Instruction) {
+		if ci, ok := in.(ssa.CallInstruction); ok {
+			if g := staticCallee(ci.Common()); g != nil && g.Name() == "Clunk" && g.Pkg == fn.Pkg {
+				if _, isGo := in.(*ssa.Go); !isGo {
+					rel = append(rel, in)
+				}
+			}
+		}
+	})
+	n := 0
+	for _, ret := range returnsOf(fn) {
+		n++
+		ok := false
+		for _, x := range rel {
+			if instrDominates(x, ret) {
+				ok = true
+			}
+		}
+		r.Check(ok, "refcount", "FileHandle.Remove: the handle's references are released on every exit", ret.Pos(),
+			"an exit of Remove is not preceded by the (deferred) Clunk: the fid is gone after a remove, so the references this handle holds on its entry and its parents are never dropped")
+	}
+	r.Floor("refcount", n, 2, "exits of FileHandle.Remove")
+}
+
+// c18DataOwnStorage: the bytes of a file live in storage of its own: Data is only ever nil, made, appended to, or a
+// re-slice of itself. A slice of shared storage (a package-level array used as initial capacity) makes every append
+// write into the other files' bytes.
+func c18DataOwnStorage(r *Run) {
+	p := r.P
+	n := 0
+	var own func(v ssa.Value, d int) bool
+	own = func(v ssa.Value, d int) bool {
+		if d > 4 {
+			return false
+		}
+		switch x := v.(type) {
+		case *ssa.Const:
+			return x.Value == nil
+		case *ssa.MakeSlice:
+			return true
+		case *ssa.Slice:
+			return own(x.X, d+1)
+		case *ssa.Phi:
+			for _, e := range x.Edges {
+				if !own(e, d+1) {
+					return false
+				}
+			}
+			return true
+		case *ssa.UnOp:
+			if f, ok := x.X.(*ssa.FieldAddr); ok && x.Op == token.MUL && fieldName(f.X.Type(), f.Field) == "Data" {
+				return true
+			}
+		case *ssa.Call:
+			if b, ok := x.Call.Value.(*ssa.Builtin); ok && b.Name() == "append" {
+				return own(x.Call.Args[0], d+1)
+			}
+		}
+		return false
+	}
+	for _, fn := range p.FuncsOfPkg("ramfs") {
+		eachInstr(fn, func(in ssa.Instruction) {
+			st, ok := in.(*ssa.Store)
+			if !ok {
+				return
+			}
+			f, ok := st.Addr.(*ssa.FieldAddr)
+			if !ok || fieldName(f.X.Type(), f.Field) != "Data" || !strings.HasSuffix(shortType(f.X.Type()), "ramfs.FileEnt") {
+				return
+			}
+			n++
+			r.Check(own(st.Val, 0), "data-placement", fnName(fn)+": a file's Data is storage of its own (nil, made, appended to, or a re-slice of itself)", st.Pos(),
+				"Data is set to a slice of storage that is not this file's ("+valStr(st.Val)+"): appends write into bytes other files (or other sessions) see")
+		})
+	}
+	r.Floor("data-placement", n, 1, "stores to FileEnt.Data")
 }
